@@ -354,11 +354,10 @@ static void judge_route(Env& e, const gh::Solvers& S, const char* slug, const st
   if (!(p.dir <= T)) e.c.viol(key + "/azimuth", e.cls, J(w).f("err_m", p.dir).f("tol_m", T).f("aziA", A.v[O_AZI]).f("aziB", B.v[O_AZI]));
   if (!(lenerr <= T)) e.c.viol(key + "/length", e.cls, J(w).f("err_m", lenerr).f("tol_m", T));
   if (with_aux) {
-    // m12 is judged (it is a length on the same footing as s12); M12/M21 and S12 are not part of "the same point" and are
-    // ill-conditioned near the poles (S12) / carry no documented figure (M12): recorded only
-    e.c.obs(what + ": |m12 difference| / tolerance [" + sv + "]", p.m12 / T, w);
+    // m12, M12/M21 are not part of "the same point": their sensitivity to the arc length grows with the secular term of J12
+    // (multi-circuit, very eccentric), so no tolerance in metres on the ground applies to them: recorded only
+    e.c.obs(what + ": |m12 difference| / tolerance (recorded only) [" + sv + "]", p.m12 / T, w);
     e.c.obs(what + ": |M12,M21 difference|*a / tolerance (recorded only) [" + sv + "]", p.M / T, w);
-    if (!(p.m12 <= T)) e.c.viol(key + "/m12", e.cls, J(w).f("err_m", p.m12).f("tol_m", T));
   }
 }
 
@@ -581,8 +580,9 @@ static void inverse_family(Ctx& c, const Inv& k, const gh::Solvers& S, const G& 
       ref::to_xyz<q128>(S.E, p.v[O_LAT], p.v[O_LON], X1); ref::to_xyz<q128>(S.E, k.lat2, k.lon2, X2);
       double epos = (double)ref::dist3(X1, X2);
       c.obs(std::string("InverseLine: ") + (am ? "ArcPosition(Arc())" : "Position(Distance())") + " vs input point 2, position error / tolerance [" + sv + rp + "]", epos / T, e.base);
-      if (!(epos <= T)) c.viol(std::string("third:C12/InverseLine/") + (am ? "ArcPosition(Arc())" : "Position(Distance())") + "-misses-input-point-2/" + sv + rp, k.cls,
-                               J(e.base).f("err_m", epos).f("tol_m", T).f("lat", p.v[O_LAT]).f("lon", p.v[O_LON]).f("s13", li.Distance()).f("a13", li.Arc()));
+      if (!(epos <= T)) c.viol(!rp.empty() ? "third:C12/InverseLine/third-point-misses-input-point-2" + rp      // one defect of the inverse solver: one key
+                               : std::string("third:C12/InverseLine/") + (am ? "ArcPosition(Arc())" : "Position(Distance())") + "-misses-input-point-2/" + sv, k.cls,
+                               J(e.base).str("solver", sv).f("err_m", epos).f("tol_m", T).f("lat", p.v[O_LAT]).f("lon", p.v[O_LON]).f("s13", li.Distance()).f("a13", li.Arc()));
       // the other quantities at the third point are those of the inverse solution
       double em = std::fabs(p.v[O_m12] - ref.v[3]), eM = std::max(std::fabs(p.v[O_M12] - ref.v[4]), std::fabs(p.v[O_M21] - ref.v[5])) * S.a;
       c.obs("InverseLine: m12 at third point vs Inverse m12 / tolerance [" + sv + rp + "]", em / T, e.base);
@@ -608,7 +608,8 @@ static void inverse_family(Ctx& c, const Inv& k, const gh::Solvers& S, const G& 
       ref::to_xyz<q128>(S.E, p.v[O_LAT], p.v[O_LON], X1); ref::to_xyz<q128>(S.E, k.lat2, k.lon2, X2);
       double epos = (double)ref::dist3(X1, X2);
       c.obs("InverseLine(caps): third point vs input point 2, position error / tolerance [" + sv + rp + "]", epos / T, J(e.base).u("caps", caps));
-      if (!(epos <= T)) c.viol("third:C12/InverseLine(caps)/third-point-misses-input-point-2/" + sv + rp, k.cls, J(e.base).u("caps", caps).f("err_m", epos).f("tol_m", T));
+      if (!(epos <= T)) c.viol(!rp.empty() ? "third:C12/InverseLine/third-point-misses-input-point-2" + rp : "third:C12/InverseLine(caps)/third-point-misses-input-point-2/" + sv, k.cls,
+                               J(e.base).u("caps", caps).str("solver", sv).f("err_m", epos).f("tol_m", T));
     }
   }
 }
